@@ -71,3 +71,39 @@ func checkHiddenClaimed(res *Result, rule string) {
 }
 
 var _ = types.Universe
+
+// checkDecodedContainers: the deserialiser of every non-functional property leaves each decoded
+// element with parent == the container and myIdx == its position (C18-R1's interpreter applied
+// to the decoders only). C11 relies on it (Next/Prev of a decoded iterator call parent.Len():
+// a nil parent is a panic reachable from a request body), C12 relies on it (the list seen
+// through Begin/Next is the document's list).
+func checkDecodedContainers(res *Result, rule, why string) {
+	M := loadGenModel()
+	S := M.S
+	n := 0
+	for _, pm := range M.Props {
+		if len(pm.Problems) > 0 || pm.Functional || pm.PropDeser == nil {
+			continue
+		}
+		n++
+		cn := pm.Container.Obj().Name()
+		methods := map[string]*ast.FuncDecl{}
+		for mn, mfd := range pm.G.Funcs {
+			if strings.HasPrefix(mn, "("+cn+").") {
+				methods[strings.TrimPrefix(mn, "("+cn+").")] = mfd
+			}
+		}
+		exits, und := interpretContainerMethod(pm.G.Pkg.TypesInfo, pm.PropDeser, methods)
+		key := rule + "|" + pm.G.Dir + "|deserialize"
+		desc := "every element decoded from a document has parent == its container and myIdx == its position"
+		switch {
+		case len(und) > 0:
+			res.Add(Oblig{Rule: rule, Func: pm.G.Dir, Pos: S.pos(pm.PropDeser), Key: key, Desc: desc, Verdict: UNDECIDED, Detail: strings.Join(und, "; ")})
+		case len(exits) > 0:
+			res.Add(Oblig{Rule: rule, Func: pm.G.Dir, Pos: S.pos(pm.PropDeser), Key: key, Desc: desc, Verdict: VIOLATION, Detail: "positions possibly left with a stale or nil myIdx/parent at an exit: " + strings.Join(exits, " | ") + " — " + why})
+		default:
+			res.Add(Oblig{Rule: rule, Func: pm.G.Dir, Pos: S.pos(pm.PropDeser), Key: key, Desc: desc, Verdict: OK})
+		}
+	}
+	res.Count(rule+" decoders of non-functional properties", n, 42)
+}
